@@ -6,6 +6,7 @@ open PgmVerif
 #print axioms PgmVerif.C10_unobserved_config_k2
 #print axioms PgmVerif.C10_unobserved_config_bd
 #print axioms PgmVerif.C10_rising_gamma
+#print axioms PgmVerif.C10_state_order_irrelevant
 #print axioms PgmVerif.C10_bdeu_covered_edge
 #print axioms PgmVerif.C10_loglik_covered_edge
 #print axioms PgmVerif.C10_nparams_covered_edge
